@@ -116,7 +116,7 @@ func Dearmor(text string) DearmorResult {
 			return r
 		}
 		r.Data = append(r.Data, b...)
-		if len(l) < 64 {
+		if len(b) < 48 { // a line carrying fewer than 48 bytes (shorter than 64 columns, or padded) must be the last
 			l2, ok := next()
 			if !ok || l2 != ArmorEnd {
 				r.Reason = "short line not followed by END"
